@@ -88,8 +88,8 @@ def write(chk, sc, cfgseed, ndims, split, even=False, values=None):
 
 
 def run_one(chk, sc, cfgseed, what):
-    if what == "slice":
-        return slice3d(chk, sc, cfgseed)
+    if what in ("slice", "sliceplt"):
+        return slice3d(chk, sc, cfgseed, plt=(what == "sliceplt"))
     ndims = 3 if what in ("point", "grid", "integral") else (2 if what == "plate" or cfgseed % 3 == 0 else 3)
     d, ap, cfg_, reg = write(chk, sc, cfgseed, ndims, split=(what != "point" and cfgseed % 2 == 0), even=(what == "integral"))
     before = alpha.tree_digest(d)
@@ -300,7 +300,7 @@ def cover(chk, ds, d, ap, cfg_, reg, sc, cfgseed, what):
     return None
 
 
-def slice3d(chk, sc, cfgseed):
+def slice3d(chk, sc, cfgseed, plt=False):
     from amr_kitchen.mandoline import Mandoline
     rs = list(sc["ratios"])
     lim = sc["lim"]
@@ -344,6 +344,8 @@ def slice3d(chk, sc, cfgseed):
              glo[cn] + dx0 * rng.uniform(3.1, ap["dom"][cn] - 0.6)]
     shape = [n * R[lim] for n in ap["dom"]]
     v = None
+    if plt:
+        return sliceplt(chk, d, ds, ap, cfg_, sc, cfgseed, cn, cx, cy, base, before)
     for pos in cands:
         try:
             with shims.pool_shim(shims.Scheduler(default="random", rng=rng)), shims.poison(1.2345e300), core.quiet():
@@ -400,6 +402,95 @@ def slice3d(chk, sc, cfgseed):
     return v
 
 
+def sliceplt(chk, d, ds, ap, cfg_, sc, cfgseed, cn, cx, cy, base, before):
+    """C16 on hierarchies with ratios 2 / 4 / mixed: a plane through the refined corner (it meets the box of every level up to the
+    limit) saved in plotfile format.  Per level: exactly the in-plane footprint of that level's box; the field constant along the
+    normal holds the box's own stored values; the affine field is reproduced where the plane lies between the level's outermost
+    cell centres; the validator accepts the output; time, geometry and cell sizes are the input's."""
+    from amr_kitchen.mandoline import Mandoline
+    from amr_kitchen.taste import Taster
+    rs = list(sc["ratios"])
+    lim = sc["lim"]
+    glo, ghi = gamma.geo(ap, cfg_)
+    dxs = [gamma.level_dx(cfg_, 3, l) for l in range(lim + 1)]
+    rng = random.Random(cfgseed + 9)
+    # inside the box of the finest selected level along the normal (it ends two cells of level lim - 1 from the lower face)
+    top = 2.0 * dxs[lim - 1][cn] if lim > 0 else dxs[0][cn] * ap["dom"][cn]
+    pos = glo[cn] + top * rng.choice([0.3, 0.5, 0.62, 0.8])
+    out = os.path.join(os.path.dirname(d), "slice2d")
+    try:
+        with shims.pool_shim(shims.Scheduler(default="random", rng=rng)), shims.poison(1.2345e300), core.quiet():
+            Mandoline(ds, fields=["v", "w"], limit_level=lim, serial=bool(cfgseed % 2), verbose=0).slice(normal=cn, pos=pos, outfile=out, fformat="plotfile")
+    except Exception as e:
+        return "refinement ratios %r: slice(normal=%d, pos=%r, limit %d, plotfile format) raised %s: %s" % (rs, cn, pos, lim, type(e).__name__, str(e)[:160])
+    v = None
+    A = alpha.abstract(out)
+    wf = alpha.wellformed(A)
+    if wf:
+        v = "the 2-D plotfile written is not well-formed: %s" % "; ".join(wf[:2])
+    else:
+        H = A["hdr"]
+        if H["fields"] != ["v", "w"] or H["ndims"] != 2 or len(A["lev"]) != lim + 1:
+            v = "the 2-D plotfile has fields %r, %d dimensions, %d levels; asked: ['v', 'w'] of levels 0..%d" % (H["fields"], H["ndims"], len(A["lev"]), lim)
+        for l in range(lim + 1):
+            if v:
+                break
+            box = ap["levels"][l]["boxes"][0]
+            want_idx = [[box["lo"][cx], box["lo"][cy]], [box["hi"][cx], box["hi"][cy]]]
+            C = A["lev"][l]
+            if C["idx"] != [want_idx]:
+                v = "level %d holds the footprints %r, the plane meets one box of that level with footprint %r" % (l, C["idx"], want_idx)
+                break
+            for dd, ax in enumerate((cx, cy)):
+                if abs(H["dx"][l][dd] - dxs[l][ax]) > 1e-12 * abs(dxs[l][ax]):
+                    v = "cell size of level %d along in-plane axis %d is %r, the input states %r" % (l, dd, H["dx"][l][dd], dxs[l][ax])
+            fn, off = C["fod"][0]
+            fab = alpha.read_fab_at(os.path.join(out, C["dir"], fn), off)
+            if fab.get("k") == "nofab" or len(fab.get("arrays", [])) != 2 or any(a is None for a in fab["arrays"]):
+                v = "level %d: no complete FAB with two components at the recorded position" % l
+                break
+            nx, ny = box["hi"][cx] - box["lo"][cx] + 1, box["hi"][cy] - box["lo"][cy] + 1
+            va = fab["arrays"][0].reshape((nx, ny), order="F")
+            wa = fab["arrays"][1].reshape((nx, ny), order="F")
+            q = [slice(None)] * 3
+            q[cn] = 0
+            q[cx] = slice(box["lo"][cx], box["hi"][cx] + 1)
+            q[cy] = slice(box["lo"][cy], box["hi"][cy] + 1)
+            wwant = base[l][tuple(q)]
+            if wwant.shape != wa.shape:
+                wwant = wwant.T
+            if not np.all(np.abs(wa - wwant) <= 1e-9 * np.maximum(1.0, np.abs(wwant))):
+                k = np.argwhere(~(np.abs(wa - wwant) <= 1e-9 * np.maximum(1.0, np.abs(wwant))))[0]
+                v = "level %d: the field constant along the normal holds %r at cell %r of the written box, the level's own stored value there is %r" % (
+                    l, float(wa[tuple(k)]), [int(x) for x in k], float(wwant[tuple(k)]))
+                break
+            if glo[cn] + dxs[l][cn] / 2 <= pos <= ghi[cn] - dxs[l][cn] / 2:
+                want = 3.0 * pos - 2.0
+                if not np.all(np.abs(va - want) <= 1e-9 * max(1.0, abs(want))):
+                    v = "level %d: the field affine along the normal holds %r in the written box, at the plane it is %r" % (l, float(va.ravel()[0]), want)
+                    break
+        if v is None and not compare_time(H, ap):
+            v = "time of the 2-D plotfile is %r, the input's is %r" % (H["time"], ap["time"])
+        if v is None:
+            try:
+                with shims.pool_shim(shims.Scheduler()), core.quiet():
+                    good = bool(Taster(out, boxes_coordinates=True, nofail=True, verbose=0))
+            except Exception as e:
+                good = False
+            if not good:
+                v = "the validator (with box coordinates) does not accept the 2-D plotfile written"
+    if v is None and alpha.tree_digest(d) != before:
+        v = "the input plotfile was modified"
+    if v:
+        v = "refinement ratios %r (%d levels, 3D), slice(normal=%d, pos=%r, limit %d) in plotfile format: %s" % (rs, len(rs) + 1, cn, pos, lim, v)
+    return v
+
+
+def compare_time(H, ap):
+    a, b = float(H["time"]), float(ap["time"])
+    return a == b or (a != a and b != b)
+
+
 def integral(ds, ap, cfg_, reg, sc, cfgseed):
     from amr_kitchen import PlotfileCooker
     from amr_kitchen.pestle import volume_integral
@@ -432,8 +523,8 @@ def phase(chk, what):
     scs = r.emitted
     if what == "point":
         scs = [s for s in scs if s["lim"] == len(s["ratios"])]
-    elif what in ("grid", "plate", "integral", "slice"):
-        scs = [s for s in scs if s["ql"] == 0 and s["n0"] == (5 if what == "slice" else 4)]
+    elif what in ("grid", "plate", "integral", "slice", "sliceplt"):
+        scs = [s for s in scs if s["ql"] == 0 and s["n0"] == (5 if what in ("slice", "sliceplt") else 4)]
     else:
         scs = [s for s in scs if s["ql"] == 0]
     cap = 80 if chk.tier == "quick" else 600
